@@ -27,6 +27,14 @@ func replay(prop string, r *sym.CaseResult, v *sym.ViolationInfo, path string) s
 	if concurrent && (!v.Aligned || len(v.Steps) == 0) {
 		return "model-only"
 	}
+	for _, n := range r.Notes {
+		// the harness declared that this case has no native counterpart (e.g. two parties that stand
+		// for two operating-system processes with separate package-level state): the replay file holds
+		// the case (shape, inputs, violated obligation); the violation is reported at model level
+		if strings.HasPrefix(n, "replay:model-only") {
+			return "model-only"
+		}
+	}
 	hooked := v.HookFile != ""
 	work, err := os.MkdirTemp(filepath.Join(*verifDir, ".work"), "replay-")
 	if err != nil {
